@@ -20,13 +20,16 @@ EXPLANATION = (
     'caught and converted or proven total from the token regex / guards; R5 every token kind whose regex admits a newline updates '
     'lineno and line_start consistently; R6 extents of call/array/dict/parenthesis nodes start at the first field and end one '
     'past the closing single-character token; R7 a child list that the visitor replays as a separate block is never stored into after '
-    'the block that follows it (positional after keyword argument). R1 also requires the node of a token to be built before anything else '
+    'the block that follows it (positional after keyword argument); R8 the constructor of every MesonException subclass of mparser.py leaves '
+    'self.lineno/self.colno holding its own parameters on every path (last writer over the CFG; a base initialiser that assigns the attribute '
+    'from its parameter/default counts as a write at the call). R1 also requires the node of a token to be built before anything else '
     'claims the whitespace that follows it; R2 that an accumulating block flushes the buffer after its last consuming call; R3 that every '
     'node class is hashable (nodes are dictionary keys). Does NOT decide: a byte-for-byte round trip of a given file (implied by R1-R3 only), '
     'whether the regexes split text as the language intends, ordering of whitespace relative to its node - in particular, when the node of a '
     'token is built from self.current before the token is consumed, whether the whitespace that follows the token is later claimed by a node '
     'whose replay ends with that token (the claimant can be a caller or the enclosing code block; seed C02-r6-2); arity of unpacked values '
-    'whose length is a typing contract (function results, table entries) rather than fixed by the producing operation.')
+    'whose length is a typing contract (function results, table entries) rather than fixed by the producing operation; whether the line/column '
+    'passed to an exception constructor lies inside the text (value-level; R8 only decides that what is passed is kept).')
 ASSUMPTIONS = [
     'calls that leave mparser.py (mlog, re, codecs apart from codecs.decode, str/list/dict methods) raise nothing but MesonException subclasses',
     'CPython >= 3.11 int(): only non power-of-two bases are subject to the 4300 digit limit',
@@ -216,6 +219,23 @@ def r6(ctx: RuleCtx) -> None:
     _probe(ctx, lambda c: c02_lex.check_extents(c, {'VerifProbeNode': 'full'}), _scratch(ctx, tail=_R6_SAMPLE), 'an extent that ends at the closing token without +1')
 
 
+_R8_SAMPLE = '''
+
+class VerifProbeError(ParseException):
+    def __init__(self, text: str, line: str, lineno: int, colno: int) -> None:
+        self.lineno = lineno
+        self.colno = colno
+        MesonException.__init__(self, text)
+'''
+
+
+def r8(ctx: RuleCtx) -> None:
+    from . import c02_located
+    c02_located.check_located(ctx)
+    _probe(ctx, lambda c: c02_located.check_located(c, {'VerifProbeError'}), _scratch(ctx, tail=_R8_SAMPLE),
+           'an exception class whose base initialiser runs after the location was stored')
+
+
 RULES = [
     Rule('C02.R1', 'token and fragment conservation (linear typestate, all paths, callee summaries)', r1),
     Rule('C02.R2', 'pending-whitespace buffer: reset only after a flush; removed prefix re-attached', r2),
@@ -224,4 +244,5 @@ RULES = [
     Rule('C02.R5', 'newline-capable token kinds update lineno and line_start consistently', r5),
     Rule('C02.R7', 'source order across child lists that the printer replays as separate blocks', r7),
     Rule('C02.R6', 'extents of spliced nodes: first field .. closing token + 1', r6),
+    Rule('C02.R8', 'syntax errors are located: exception constructors end with lineno/colno holding their parameters', r8),
 ]
